@@ -50,7 +50,7 @@ PROFILES = {
     "C03": ("mixed", "buffers", "race", "full", "dep", "multibuf", "wide"),
     "C05": ("mixed", "buffers", "full", "stoch", "race", "multibuf", "wide", "outs", "dep", "outstart"),
     "C07": ("transport", "buffers", "full", "stoch", "race", "multibuf", "wide", "dep"),
-    "C08": ("buffers", "race", "full", "dep", "wide", "multibuf", "fullstart"),
+    "C08": ("buffers", "race", "full", "buffers", "dep", "wide", "race", "multibuf", "fullstart"),
     "C09": ("full", "stoch", "full", "mixed", "wide"),
     "C10": ("full", "stoch", "full", "full", "wide", "outs"),
     "C11": ("transport", "buffers", "full", "race", "wide", "multibuf", "dep", "outstart"),
@@ -162,7 +162,8 @@ def _worker(args):
                                                   "not satisfy %s (hypothesis of the %s theorems)" % (clause, prop),
                                                   "replay": replay_of(e.first, state=r0.pre)})
                 try:
-                    flex = all("FLEX" in str(m.postbuffer.type).upper() for m in r0.codec.instance.machines)
+                    flex = all("FLEX" in str(m.postbuffer.type).upper() or m.postbuffer.capacity == 1
+                               for m in r0.codec.instance.machines)     # flex_post_b of SMP/ProvBatch.v
                 except Exception:  # noqa
                     flex = False
                 if flex and prop != "C03":
@@ -623,6 +624,11 @@ def c18(ctx):
     _merge_hook(ctx, "c18_")
 
 
+def c08(ctx):
+    sm_check(ctx, n_quick=270, workers_quick=9)
+    keep_only(ctx, lambda v: not v["kind"].startswith("outcome:"))
+
+
 def c09(ctx):
     c_generic(ctx)
     import props_other
@@ -630,6 +636,6 @@ def c09(ctx):
 
 
 TABLE = {
-    "C01": c_generic, "C02": c_generic, "C03": c_generic, "C05": c05, "C07": c_generic, "C08": c_generic,
+    "C01": c_generic, "C02": c_generic, "C03": c_generic, "C05": c05, "C07": c_generic, "C08": c08,
     "C09": c09, "C10": c_generic, "C11": c11, "C12": c12, "C20": c20, "C04": c04, "C18": c18,
 }
